@@ -23,6 +23,7 @@ KNOWN_FILE = os.path.join(VERIF, "known_findings.json")
 NPROC = int(os.environ.get("PYVC_NPROC", "14"))
 BOUNDED_BUDGET_S = float(os.environ.get("PYVC_BOUNDED_S", "40"))
 THOROUGH_BUDGET_S = float(os.environ.get("PYVC_THOROUGH_S", "150"))
+TRUSTED_BUDGET_S = float(os.environ.get("PYVC_TRUSTED_S", "12"))
 
 ASSUMPTIONS = {
     "A1": "sequential execution; no threads, signals or finalisers",
@@ -252,6 +253,23 @@ def run_check(pid: str, tier: str, repo_root=None, seed=0):
                 else:
                     still_undecided.append((n, why))
             undecided = still_undecided
+    trusted_now = sorted({q for q, c_ in reg.contracts.items() if c_.trusted and pid in c_.props})
+    if trusted_now and not viol:
+        # functions whose contract is trusted (body outside the symbolic subset): bounded stand-in on every run
+        agg, failure = bounded_search(pid, trusted_now, TRUSTED_BUDGET_S, seed + 5, repo_root)
+        agg["focus"] = trusted_now
+        agg["purpose"] = "bounded stand-in for functions with a TRUSTED contract (never counted as proved)"
+        bounded_report.append(agg)
+        if failure is not None:
+            os.makedirs(os.path.join(REPLAY_DIR, pid), exist_ok=True)
+            path = os.path.join(REPLAY_DIR, pid, "trusted_" + sanitize(failure.get("function") or trusted_now[0]) + ".history.py")
+            bounded.write_replay(path, pid, failure, note="bounded stand-in for trusted contracts: " + ", ".join(trusted_now))
+            replay_paths.append(path)
+            lines.append(f"VIOLATION property={pid} replay={path}")
+            viol.append((None, None))
+        else:
+            lines.append(f"BOUNDED property={pid} {', '.join(trusted_now)}: trusted contract(s); bounded stand-in found no violation in "
+                         f"{agg['histories']} histories")
     if tier == "thorough" and not viol:
         agg, failure = bounded_search(pid, None, THOROUGH_BUDGET_S, seed + 17, repo_root)
         agg["purpose"] = "thorough tier: contracts vs CPython cross-check on random histories (bounded)"
